@@ -18,7 +18,19 @@ use super::ops::{
 };
 
 /// abort handles the app keeps, shared with the tasks of its commands (a task may abort a command)
-pub type Handles = Arc<std::sync::Mutex<BTreeMap<u32, Arc<dyn Fn() + Send + Sync>>>>;
+#[derive(Clone, Default)]
+pub struct Handles {
+    map: Arc<std::sync::Mutex<BTreeMap<u32, Arc<dyn Fn() + Send + Sync>>>>,
+    /// capability contexts of the app's own core (set by every `update`): what a command task that
+    /// "captured a capability clone" uses (`Stmt::CapRequest`)
+    pub caps: Arc<std::sync::Mutex<Option<LegacyCtx>>>,
+}
+
+impl Handles {
+    pub fn lock(&self) -> std::sync::LockResult<std::sync::MutexGuard<'_, BTreeMap<u32, Arc<dyn Fn() + Send + Sync>>>> {
+        self.map.lock()
+    }
+}
 
 type RB<Ef> = RequestBuilder<Ef, Event, BoxFuture<'static, u64>>;
 type SB<Ef> = StreamBuilder<Ef, Event, BoxStream<'static, u64>>;
@@ -286,6 +298,16 @@ fn run_stmts<'a, Ef: SimEffect>(
                 Stmt::Request(leaf) => {
                     env.acc = shell_request(leaf, env.acc, ctx).await;
                 }
+                Stmt::CapRequest(leaf) => {
+                    let caps = env.handles.caps.lock().unwrap().clone();
+                    env.acc = match caps {
+                        Some(l) => match leaf.op {
+                            OpKind::A => l.a.request_from_shell(op_a(leaf, env.acc)).await,
+                            OpKind::B => decode_b(l.b.request_from_shell(op_b(leaf, env.acc)).await),
+                        },
+                        None => shell_request(leaf, env.acc, ctx).await,
+                    };
+                }
                 Stmt::Notify(leaf) => match leaf.op {
                     OpKind::A => ctx.notify_shell(op_a(leaf, env.acc)),
                     OpKind::B => ctx.notify_shell(op_b(leaf, env.acc)),
@@ -448,7 +470,7 @@ fn legacy_stmts<'a>(stmts: &'a [Stmt], env: &'a mut LEnv, ctx: &'a LegacyCtx) ->
     async move {
         for s in stmts {
             match s {
-                Stmt::Request(leaf) => {
+                Stmt::Request(leaf) | Stmt::CapRequest(leaf) => {
                     env.acc = match leaf.op {
                         OpKind::A => ctx.a.request_from_shell(op_a(leaf, env.acc)).await,
                         OpKind::B => decode_b(ctx.b.request_from_shell(op_b(leaf, env.acc)).await),
